@@ -405,8 +405,15 @@ def exponent(ck, F):
                "evaluate_exponent has a success path that does not compute left.powf(right) (%s): whole-number exponents through powi "
                "are rounded differently and print other digits" % "; ".join(sorted(set(other))), b.span)
     tf = [c for c in b.calls() if "TryFrom<abasic_core::value::Value> for f64" in c.callee]
-    ck.require(len(tf) == 2, "C02:TYPING:exponent", "typing table", "both operands are converted with TryFrom<Value> for f64 (TYPE MISMATCH on strings)",
-               "evaluate_exponent converts %d operands through the checked f64 conversion" % len(tf), b.span)
+    # the checked conversion, or its spelled-out form `let Value::Number(x) = operand else { return Err(TypeMismatch) }`
+    spelled = set()
+    for r in path_records(b):
+        if str(r["outcome"]).startswith("Err:TypeMismatch"):
+            for d in r["decisions"]:
+                if d[2] == "String" and len(d[1]) == 1:
+                    spelled |= set(d[1])
+    ck.require(len(tf) + len(spelled) == 2, "C02:TYPING:exponent", "typing table", "both operands are converted with TryFrom<Value> for f64 (TYPE MISMATCH on strings)",
+               "evaluate_exponent converts %d operands through the checked f64 conversion" % (len(tf) + len(spelled)), b.span)
     bad = 0
     n_ok = 0
     for r in path_records(b):
@@ -417,6 +424,9 @@ def exponent(ck, F):
         params = set()
         for c in conv:
             params |= expr_params(b.expr(c.args[0]))
+        for d in r["decisions"]:
+            if d[2] == "Number" and len(d[1]) == 1:
+                params |= set(d[1])
         if params != {0, 1}:
             bad += 1
     ck.require(n_ok >= 1 and bad == 0, "C02:TYPING:exponent-all-paths", "typing table",
@@ -457,7 +467,14 @@ def unary(ck, F):
             names = [n for n in names if n != "map"]
             outcome = "Ok"
         if outcome == "Ok":
-            got.setdefault(opv, set()).add((tuple(n for n in names if n in ("try_from", "to_bool", "from_bool", "from")), bool(negs), bool(nots)))
+            sig = tuple(n for n in names if n in ("try_from", "to_bool", "from_bool", "from"))
+            # `let Value::Number(n) = value else { TYPE MISMATCH }; Value::Number(-n)` is the checked conversion and the wrapping
+            # spelled out: a decision `Number` on the operand stands for try_from, a Value::Number construction for from
+            if opv == "Negative":
+                checked = "try_from" in sig or any(d[2] == "Number" for d in r["decisions"])
+                wrapped = "from" in sig or any(a[0].endswith("value::Value") and a[1] == "Number" for a in r["aggs"])
+                sig = (("try_from",) if checked else ()) + (("from",) if wrapped else ())
+            got.setdefault(opv, set()).add((sig, bool(negs), bool(nots)))
     ck.require(got.get("Positive") == {((), False, False)}, "C02:OP:unary-plus", "operator semantics", "+x returns x unchanged (any kind)",
                "unary plus does %s" % got.get("Positive"), b.span)
     ck.require(got.get("Negative") == {(("try_from", "from"), True, False)}, "C02:OP:unary-minus", "operator semantics",
